@@ -824,7 +824,7 @@ func (c *DefaultCtx) extractIPFromHeader(header string) string {
 				j++
 			}
 
-			for i < j && headerValue[i] == ' ' {
+			for i < j && (headerValue[i] == ' ' || headerValue[i] == ',') {
 				i++
 			}
 
